@@ -215,7 +215,7 @@ Definition c06_step (s : ost) (o : op) (x : obs) : sv :=
                           && list_eqb (sub out 11 (n - 12)) params && (12 <=? n)%nat in
             if others then sv_kf (nth 10 out 0 =? code) (if id =? 15 then 601 else 0) id
             else sv_of false id
-        | None => sv_of false id       (* documented-invalid arguments were encoded *)
+        | None => sv_triv              (* documented-invalid arguments were encoded: C16's business *)
         end
       else sv_triv
   | _, _ => sv_triv
